@@ -275,7 +275,7 @@ def jobs(tier):
     decks = corpus_decks()
     js = []
     for i in range(16):
-        js.append({"shard": i, "n": 400 if tier == "thorough" else 90,
+        js.append({"shard": i, "n": 400 if tier == "thorough" else 150,
                    "decks": decks[i::16] if tier == "thorough" else decks[i::16][:2],
                    "max_ops": 60 if tier == "thorough" else 25, "save_every": tier == "thorough"})
     return js
